@@ -8,6 +8,8 @@ import DiskfsModel.Spec.Tree
 import DiskfsModel.Model.Fat.Geom
 import DiskfsModel.Model.Fat.FlatFs
 import DiskfsModel.Generated.Fat
+import DiskfsModel.Model.Fat.Boot
+import DiskfsModel.Spec.FatBoot
 namespace Driver.Fat
 open Diskfs Diskfs.Fat Driver
 
@@ -260,6 +262,35 @@ def specOp (args : List String) : String :=
   let v := sortStrs (viewOf "" t)
   s!"res={natsStr res}\tview={if v.isEmpty then "-" else ";".intercalate v}"
 
+/-! boot region: the Lean raw checker on real bytes, and the encoders against what Create wrote -/
+def dedupSorted (l : List String) : List String :=
+  (sortStrs l).foldl (fun acc x => if acc.getLast? == some x then acc else acc ++ [x]) []
+
+def bootcheckOp (args : List String) : String :=
+  match argHex args "hex" with
+  | none => "bad-hex"
+  | some img =>
+    let ps := dedupSorted (Spec.FatBoot.bootProblems img (argNatD args "size") (argNatD args "kind") (argNatD args "bps"))
+    s!"codes={if ps.isEmpty then "-" else ",".intercalate ps}"
+
+def bootencOp (args : List String) : String :=
+  let size := argNatD args "size"
+  let label := strBytes ((arg args "label").getD "VERIF      ")
+  let serial := argNatD args "serial"
+  match (arg args "kind").getD "12" with
+  | "12" => match mkGeom12 Generated.Fat.fat12_spc_table size with
+    | none => "err"
+    | some g => s!"boot={toHex (boot12OfGeom g size serial label).bytes}	fsinfo=-"
+  | "16" => match mkGeom16 Generated.Fat.fat16_spc_table size with
+    | none => "err"
+    | some g => s!"boot={toHex (boot16OfGeom g serial label).bytes}	fsinfo=-"
+  | _ =>
+    let r := if argNatD args "fix32" == 1 then mkGeom32Fixed Generated.Fat.fat32_clusterBytes_table size (argNatD args "bs")
+             else mkGeom32 Generated.Fat.fat32_clusterBytes_table size (argNatD args "bs")
+    match r with
+    | none => "err"
+    | some g => s!"boot={toHex ((boot32OfGeom g serial label).bytes g.bps)}	fsinfo={toHex (fsinfoFresh.bytes g.bps)}"
+
 end Driver.Fat
 
 def main : IO Unit := Driver.runLoop fun op args =>
@@ -281,4 +312,6 @@ def main : IO Unit := Driver.runLoop fun op args =>
   | "fat.geom" => Driver.Fat.geomOp args
   | "fat.flat" => Driver.Fat.flatOp args
   | "fat.spec" => Driver.Fat.specOp args
+  | "fat.bootcheck" => Driver.Fat.bootcheckOp args
+  | "fat.bootenc" => Driver.Fat.bootencOp args
   | _ => "unknown-op"
